@@ -115,7 +115,7 @@ def check_c15(tier):
     b, gen = build("plain")
     caps = build_caps(b, gen)
     exe = build_e3(b, gen)
-    recs = run_e3(exe, ["--mode", "c15", "--caps", caps, "--tier", tier], os.path.join(b.dir, "c15.out"))
+    recs = run_e3(exe, ["--mode", "c15", "--caps", caps, "--spec", spec_caps(), "--tier", tier], os.path.join(b.dir, "c15.out"))
     report_viols(rep, recs, "C15")
     sols = [r for r in recs if r["k"] == "c15sol"]
     rep.coverage.update({
